@@ -3,7 +3,7 @@ CONSTANTS
   Families = {"mix2"}
   Big = TRUE
   Faithful = TRUE
-INVARIANTS TypeOK CarriesSame RefIsEncoding DevOnlyWhereViewsDiffer DeviationsConfined DecoderFacts
+INVARIANTS TypeOK CarriesSame RefIsEncoding SlotSound NonScalarAgree DevOnlyWhereViewsDiffer DeviationsConfined DecoderFacts
 CHECK_DEADLOCK FALSE
 ACTION_CONSTRAINT Dump
 VIEW View
